@@ -120,6 +120,50 @@ theorem tolist_row_major (dflt : O) (r : NT O) (hw : wf r = true) :
   tolistN_spec dflt (shape r).length r hw rfl
 
 
+/-- a 1-d boolean mask over a dim selects exactly its True positions, in increasing order (`mask.nonzero()`) … -/
+theorem mask_true_positions (bits : List Bool) :
+    (∀ i, i ∈ truePositions bits ↔ bits[i]? = some true) ∧ (truePositions bits).Pairwise (· < ·) := by
+  constructor
+  · intro i
+    unfold truePositions
+    rw [List.mem_filter, List.mem_range]
+    constructor
+    · rintro ⟨hi, hb⟩
+      rw [List.getD_eq_getElem?_getD, List.getElem?_eq_getElem hi] at hb
+      rw [List.getElem?_eq_getElem hi]
+      simpa using hb
+    · intro h
+      obtain ⟨hi, hb⟩ := List.getElem?_eq_some_iff.mp h
+      refine ⟨hi, ?_⟩
+      rw [List.getD_eq_getElem?_getD, List.getElem?_eq_getElem hi]
+      simpa using hb
+  · unfold truePositions
+    exact List.Pairwise.sublist List.filter_sublist (List.pairwise_lt_range)
+
+/-- … and `td[…, mask, …]` IS `td[…, positions, …]`: the front end resolves a mask of the right length to the index list of
+its True positions (wrong length: IndexError), so `getitem_commutes` (one advanced index, in any position, mixed with ints /
+slices / None / Ellipsis) covers masks at full strength.  That the lazy-stack mask branch of the code produces the
+representation of that index list is tied by the correspondence stream (≈280 mask reads and ≈140 mask writes per quick run). -/
+theorem mask_resolves_to_positions (n : Nat) (s : Shape) (bits : List Bool) (r : List Ix) (rix : List RIx)
+    (h : resolveItems (n :: s) (.mask bits :: r) = .ok rix) :
+    bits.length = n ∧ ∃ rr, resolveItems s r = .ok rr ∧ rix = .pick (truePositions bits) :: rr := by
+  simp only [resolveItems] at h
+  by_cases hl : bits.length ≠ n
+  · rw [if_pos hl] at h; cases h
+  · rw [if_neg hl] at h
+    by_cases he : truePositions bits = []
+    · rw [if_pos he] at h; cases h
+    · rw [if_neg he] at h
+      cases hr : resolveItems s r with
+      | error e => simp [hr, Except.map] at h
+      | ok rr =>
+        simp only [hr, Except.map] at h
+        injection h with h
+        exact ⟨by simpa using hl, rr, rfl, h.symm⟩
+
+example : getitem (.stack [.shared "y" [2], .shared "x" [2], .shared "z" [2]] 0 : NT String) [.mask [true, false, true]]
+    = .ok (.stack [.shared "y" [2], .shared "z" [2]] 0) := by rfl
+
 /-! ### indexed assignment -/
 
 /-- `setAt_commutes` (`_set_at_str`, non-tensor branch, across the shared→stack promotion): for a well-formed entry
